@@ -2,6 +2,8 @@
   C19 — helper lemmas about the byte scanners of Model/C19.lean (core Lean only).
 -/
 import MitmVerif.Model.C19
+import MitmVerif.Props.C13
+set_option linter.unusedSimpArgs false
 namespace MitmVerif.C19
 open MitmVerif
 
@@ -148,5 +150,871 @@ theorem expected_append_false (p q : Bytes) (h : expected p = false) (hp : reqLi
         rw [findHttp_append_false tl q this h] at hf
         cases hf
       · simp [ha, hb, hc] at hp'
+
+/-! ## the Host group and the header scan -/
+
+theorem startsCI_length (lit d : Bytes) (h : startsCI lit d = true) : lit.length ≤ d.length := by
+  induction lit generalizing d with
+  | nil => simp
+  | cons p ps ih =>
+    cases d with
+    | nil => simp [startsCI] at h
+    | cons x xs =>
+      simp only [startsCI, Bool.and_eq_true] at h
+      simpa using ih xs h.2
+
+theorem lineUpToLF_append_some (d q l : Bytes) (h : lineUpToLF d = some l) : lineUpToLF (d ++ q) = some l := by
+  induction d generalizing l with
+  | nil => simp [lineUpToLF] at h
+  | cons b tl ih =>
+    simp only [lineUpToLF, List.cons_append] at h ⊢
+    by_cases hb : b = LF
+    · simpa [hb] using h
+    · simp only [hb, if_false] at h ⊢
+      cases ht : lineUpToLF tl with
+      | none => simp [ht] at h
+      | some l' => simp [ht] at h; simp [ih l' ht, h]
+
+theorem lineUpToLF_none (d : Bytes) (h : lineUpToLF d = none) : LF ∉ d := by
+  induction d with
+  | nil => simp
+  | cons b tl ih =>
+    simp only [lineUpToLF] at h
+    by_cases hb : b = LF
+    · simp [hb] at h
+    · simp only [hb, if_false, Option.map_eq_none_iff] at h
+      intro hm
+      rcases List.mem_cons.mp hm with e | e
+      · exact hb e.symm
+      · exact ih h e
+
+theorem ows_ne_lf (b : UInt8) (h : isOWS b = true) : b ≠ LF := by
+  intro e; subst e; simp [isOWS, LF] at h
+
+theorem stripL_append_of_ne (d q : Bytes) (h : stripL d ≠ []) : stripL (d ++ q) = stripL d ++ q := by
+  induction d with
+  | nil => simp [stripL] at h
+  | cons b tl ih =>
+    simp only [stripL, List.cons_append, List.dropWhile_cons] at h ⊢
+    by_cases hb : isOWS b = true
+    · simp only [hb, if_true] at h ⊢
+      exact ih h
+    · simp [hb]
+
+theorem lf_not_mem_of_stripL (d : Bytes) (h : LF ∉ stripL d) : LF ∉ d := by
+  induction d with
+  | nil => simp
+  | cons b tl ih =>
+    simp only [stripL, List.dropWhile_cons] at h
+    by_cases hb : isOWS b = true
+    · simp only [hb, if_true] at h
+      intro hm
+      rcases List.mem_cons.mp hm with e | e
+      · exact ows_ne_lf b hb e.symm
+      · exact ih h e
+    · simpa [hb] using h
+
+theorem hostGroup_append_some (rest q v : Bytes) (h : hostGroup rest = some v) : hostGroup (rest ++ q) = some v := by
+  unfold hostGroup at h ⊢
+  by_cases hs : startsCI hostLit rest = true
+  · have hlen : 5 ≤ rest.length := by simpa [hostLit] using startsCI_length hostLit rest hs
+    simp only [hs, if_true] at h
+    rw [startsCI_append_true hostLit rest q hs]
+    simp only [if_true]
+    cases hl : lineUpToLF (stripL (List.drop 5 rest)) with
+    | none => simp [hl] at h
+    | some l =>
+      have hne : stripL (List.drop 5 rest) ≠ [] := by
+        intro e; rw [e] at hl; simp [lineUpToLF] at hl
+      rw [List.drop_append_of_le_length hlen, stripL_append_of_ne _ q hne, lineUpToLF_append_some _ q l hl]
+      simpa [hl] using h
+  · simp [hs] at h
+
+/-- if more bytes make the Host group match where it did not before, the line was not finished: no LF yet -/
+theorem hostGroup_append_flip (rest q : Bytes) (h0 : hostGroup rest = none) (h1 : hostGroup (rest ++ q) ≠ none) :
+    LF ∉ rest := by
+  by_cases hs : startsCI hostLit rest = true
+  · have hlen : 5 ≤ rest.length := by simpa [hostLit] using startsCI_length hostLit rest hs
+    cases hl : lineUpToLF (stripL (List.drop 5 rest)) with
+    | none =>
+      have h5 : LF ∉ List.drop 5 rest := lf_not_mem_of_stripL _ (lineUpToLF_none _ hl)
+      intro hm
+      rw [← List.take_append_drop 5 rest] at hm
+      rcases List.mem_append.mp hm with e | e
+      · match rest, hs, e with
+        | a :: b :: c :: d :: f :: r, hs, e =>
+          simp only [startsCI, hostLit, Bool.and_eq_true, decide_eq_true_eq] at hs
+          simp only [List.take, List.mem_cons, List.mem_nil_iff, or_false] at e
+          rcases e with e | e | e | e | e <;> subst e <;> simp [asciiLowerB, LF] at hs
+      · exact h5 e
+    | some l =>
+      exfalso
+      have hne : stripL (List.drop 5 rest) ≠ [] := by
+        intro e; rw [e] at hl; simp [lineUpToLF] at hl
+      apply h1
+      unfold hostGroup at h0 ⊢
+      simp only [hs, if_true, hl] at h0
+      rw [startsCI_append_true hostLit rest q hs]
+      simp only [if_true]
+      rw [List.drop_append_of_le_length hlen, stripL_append_of_ne _ q hne, lineUpToLF_append_some _ q l hl]
+      simpa using h0
+  · have hs0 : startsCI hostLit rest = false := by simpa using hs
+    cases hq : startsCI hostLit (rest ++ q) with
+    | false => exfalso; apply h1; simp [hostGroup, hq]
+    | true =>
+      intro hm
+      exact lf_not_in_hostLit (startsCI_append_flip hostLit rest q hs0 hq LF hm)
+
+theorem scan_no_lf (d : Bytes) (h : LF ∉ d) : scan d = .needMore := by
+  induction d with
+  | nil => rfl
+  | cons a tl ih =>
+    have htl : LF ∉ tl := fun hm => h (List.mem_cons_of_mem _ hm)
+    simp only [scan]
+    split
+    · cases tl with
+      | nil => rfl
+      | cons b rest =>
+        have hb : b ≠ LF := fun e => h (by simp [e])
+        simp [hb, ih htl]
+    · exact ih htl
+
+theorem scan_lf_cons_no_lf (rest : Bytes) (h : LF ∉ rest) : scan (LF :: rest) = .needMore := by
+  simp only [scan]
+  have : LF ≠ CR := by decide
+  simp [this, scan_no_lf rest h]
+
+theorem startsCRLF_append_true (d q : Bytes) (h : startsCRLF d = true) : startsCRLF (d ++ q) = true := by
+  match d, h with
+  | a :: b :: r, h => simpa [startsCRLF] using h
+
+/-- **prefix stability of the header scan**: a match found in the data so far is the match in any extension -/
+theorem scan_append (p q : Bytes) (r : Option Bytes) (h : scan p = .ok r) : scan (p ++ q) = .ok r := by
+  induction p with
+  | nil => simp [scan] at h
+  | cons a tl ih =>
+    simp only [scan, List.cons_append] at h ⊢
+    by_cases ha : a = CR
+    · simp only [ha, if_true] at h ⊢
+      cases tl with
+      | nil => simp at h
+      | cons b rest =>
+        simp only [List.cons_append] at h ⊢
+        by_cases hb : b = LF
+        · simp only [hb, if_true] at h ⊢
+          subst hb
+          cases hg : hostGroup rest with
+          | some v =>
+            simp only [hg] at h
+            simp only [hostGroup_append_some rest q v hg]
+            exact h
+          | none =>
+            simp only [hg] at h
+            by_cases hc : startsCRLF rest = true
+            · simp only [hc, if_true] at h
+              have hg' : hostGroup (rest ++ q) = none := by
+                match rest, hc with
+                | x :: y :: r', hc =>
+                  simp only [startsCRLF, Bool.and_eq_true, decide_eq_true_eq] at hc
+                  simp [hostGroup, startsCI, hostLit, hc.1, asciiLowerB, CR]
+              simp only [hg', startsCRLF_append_true rest q hc, if_true]
+              exact h
+            · simp only [hc] at h
+              have hlf : LF ∈ rest := by
+                apply Classical.byContradiction
+                intro hn
+                rw [scan_lf_cons_no_lf rest hn] at h
+                cases h
+              have hg' : hostGroup (rest ++ q) = none := by
+                cases hq : hostGroup (rest ++ q) with
+                | none => rfl
+                | some v => exact absurd hlf (hostGroup_append_flip rest q hg (by simp [hq]))
+              have hc' : startsCRLF (rest ++ q) = false := by
+                match rest, hc, hlf with
+                | [x], _, hlf =>
+                  simp only [List.mem_cons, List.mem_nil_iff, or_false] at hlf
+                  subst hlf
+                  cases q <;> simp [startsCRLF, LF, CR]
+                | x :: y :: r', hc, _ => simpa [startsCRLF] using hc
+              simp only [hg', hc']
+              have := ih h
+              simpa using this
+        · simp only [hb, if_false] at h ⊢
+          have := ih h
+          simpa using this
+    · simp only [ha, if_false] at h ⊢
+      exact ih h
+
+theorem hostHeader_append (tcp : Bool) (p q ds : Bytes) (r : Option Bytes) (hp : reqLinePending p = false)
+    (h : hostHeader tcp p ds = .ok r) : hostHeader tcp (p ++ q) ds = .ok r := by
+  unfold hostHeader at h ⊢
+  by_cases h1 : (!tcp || !ds.isEmpty) = true
+  · simpa [h1] using h
+  · simp only [h1] at h ⊢
+    by_cases he : expected p = true
+    · simp only [he, if_true] at h
+      simp only [expected_append_true p q he, if_true]
+      exact scan_append p q r h
+    · have he0 : expected p = false := by simpa using he
+      simp only [he0] at h
+      simp only [expected_append_false p q he0 hp]
+      exact h
+
+/-! ## the scanner on well-formed heads = the RFC field syntax -/
+
+/-- what `scan` does when it stands right behind a CRLF -/
+def atLine (rest : Bytes) : Res (Option Bytes) :=
+  match hostGroup rest with
+  | some v => .ok (if v.isEmpty then none else some v)
+  | none => if startsCRLF rest then .ok none else scan (LF :: rest)
+
+theorem scan_skip (l rest : Bytes) (h : CR ∉ l) : scan (l ++ CR :: LF :: rest) = atLine rest := by
+  induction l with
+  | nil =>
+    show scan (CR :: LF :: rest) = atLine rest
+    rw [scan]
+    rfl
+  | cons a tl ih =>
+    have ha : a ≠ CR := fun e => h (by simp [e])
+    have ht : CR ∉ tl := fun hm => h (List.mem_cons_of_mem _ hm)
+    simp only [List.cons_append, scan, ha, if_false]
+    exact ih ht
+
+theorem scan_lf (rest : Bytes) : scan (LF :: rest) = scan rest := by
+  have : LF ≠ CR := by decide
+  simp [scan, this]
+
+theorem stripL_ows_append (o r : Bytes) (h : ∀ b ∈ o, isOWS b = true) : stripL (o ++ r) = stripL r := by
+  induction o with
+  | nil => rfl
+  | cons a tl ih =>
+    have ha : isOWS a = true := h a (by simp)
+    simp only [stripL, List.cons_append, List.dropWhile_cons, ha, if_true]
+    exact ih (fun b hb => h b (List.mem_cons_of_mem _ hb))
+
+theorem lineUpToLF_exact (l rest : Bytes) (h : LF ∉ l) : lineUpToLF (l ++ LF :: rest) = some l := by
+  induction l with
+  | nil => simp [lineUpToLF]
+  | cons a tl ih =>
+    have ha : a ≠ LF := fun e => h (by simp [e])
+    have ht : LF ∉ tl := fun hm => h (List.mem_cons_of_mem _ hm)
+    simp [lineUpToLF, ha, ih ht]
+
+theorem chopCR_snoc (l : Bytes) : chopCR (l ++ [CR]) = some l := by
+  simp [chopCR]
+
+theorem stripR_value (v o : Bytes) (ho : ∀ b ∈ o, isOWS b = true)
+    (hv : ∀ b, v.getLast? = some b → isOWS b = false) : stripR (v ++ o) = v := by
+  unfold stripR
+  rw [List.reverse_append]
+  have ho' : ∀ b ∈ o.reverse, isOWS b = true := fun b hb => ho b (List.mem_reverse.mp hb)
+  have := stripL_ows_append o.reverse v.reverse ho'
+  unfold stripL at this
+  rw [this]
+  cases hr : v.reverse with
+  | nil =>
+    have : v = [] := by simpa using hr
+    simp [this]
+  | cons x xs =>
+    have hx : v.getLast? = some x := by
+      rw [← List.head?_reverse, hr]; rfl
+    have := hv x hx
+    simp only [List.dropWhile_cons, this]
+    rw [← hr]; simp
+
+theorem tchar_facts (b : UInt8) (h : isTchar b = true) : b ≠ CR ∧ b ≠ LF ∧ b ≠ colon := by
+  have key : ∀ n : Fin 256, isTchar (UInt8.ofNat n.val) = true →
+      UInt8.ofNat n.val ≠ CR ∧ UInt8.ofNat n.val ≠ LF ∧ UInt8.ofNat n.val ≠ colon := by decide +kernel
+  have := key ⟨b.toNat, UInt8.toNat_lt b⟩
+  simp only [UInt8.ofNat_toNat] at this
+  exact this h
+
+theorem ows_facts (b : UInt8) (h : isOWS b = true) : b ≠ CR ∧ b ≠ LF := by
+  simp only [isOWS, Bool.or_eq_true, decide_eq_true_eq] at h
+  rcases h with h | h <;> subst h <;> decide
+
+theorem body_no_cr (f : Field) (hw : f.WF) : CR ∉ f.body := by
+  obtain ⟨_, hn, h1, h2, hv, _, _⟩ := hw
+  intro hm
+  simp only [Field.body, List.mem_append, List.mem_cons] at hm
+  rcases hm with hm | hm | (hm | hm) | hm
+  · exact (tchar_facts _ (hn _ hm)).1 rfl
+  · exact absurd hm (by decide)
+  · exact (ows_facts _ (h1 _ hm)).1 rfl
+  · exact (hv _ hm).1 rfl
+  · exact (ows_facts _ (h2 _ hm)).1 rfl
+
+theorem lowerB_colon : asciiLowerB colon = colon := by decide
+
+theorem lowerB_ne_colon (b : UInt8) (h : b ≠ colon) : asciiLowerB b ≠ colon := by
+  have key : ∀ n : Fin 256, UInt8.ofNat n.val ≠ colon → asciiLowerB (UInt8.ofNat n.val) ≠ colon := by decide +kernel
+  have := key ⟨b.toNat, UInt8.toNat_lt b⟩
+  simp only [UInt8.ofNat_toNat] at this
+  exact this h
+
+/-- a token followed by a colon starts with `host:` (case-insensitively) exactly when the token is `host` -/
+theorem startsCI_host_name (n r : Bytes) (hn : ∀ b ∈ n, isTchar b = true) :
+    startsCI hostLit (n ++ colon :: r) = isHostName n := by
+  have nc : ∀ b ∈ n, asciiLowerB b ≠ colon := fun b hb => lowerB_ne_colon b (tchar_facts b (hn b hb)).2.2
+  have c58 : asciiLowerB 58 = 58 := by decide
+  match n, nc with
+  | [], _ => simp [startsCI, hostLit, isHostName, colon, c58]
+  | [a], _ => simp [startsCI, hostLit, isHostName, colon, c58]
+  | [a, b], _ => simp [startsCI, hostLit, isHostName, colon, c58]
+  | [a, b, c], _ => simp [startsCI, hostLit, isHostName, colon, c58]
+  | [a, b, c, d], _ => simp [startsCI, hostLit, isHostName, colon, c58]
+  | a :: b :: c :: d :: e :: t, nc =>
+    have he : asciiLowerB e ≠ 58 := nc e (by simp)
+    simp [startsCI, hostLit, isHostName, he]
+
+theorem hostGroup_other (f : Field) (hw : f.WF) (hn : isHostName f.name = false) (z : Bytes) :
+    hostGroup (f.render ++ z) = none := by
+  have hs : startsCI hostLit (f.render ++ z) = false := by
+    have := startsCI_host_name f.name (f.ows1 ++ f.value ++ f.ows2 ++ [CR, LF] ++ z) hw.2.1
+    rw [hn] at this
+    simpa [Field.render, Field.body] using this
+  simp [hostGroup, hs]
+
+theorem startsCRLF_cons_ne (a : UInt8) (l : Bytes) (ha : a ≠ CR) : startsCRLF (a :: l) = false := by
+  cases l <;> simp [startsCRLF, ha]
+
+theorem startsCRLF_field (f : Field) (hw : f.WF) (z : Bytes) : startsCRLF (f.render ++ z) = false := by
+  obtain ⟨hne, hn, _⟩ := hw
+  cases hname : f.name with
+  | nil => exact absurd hname hne
+  | cons a t =>
+    have ha : a ≠ CR := (tchar_facts a (hn a (by simp [hname]))).1
+    simp only [Field.render, Field.body, hname, List.cons_append]
+    exact startsCRLF_cons_ne a _ ha
+
+theorem hostGroup_host (f : Field) (hw : f.WF) (hn : isHostName f.name = true) (z : Bytes) :
+    hostGroup (f.render ++ z) = some f.value := by
+  obtain ⟨_, hname, h1, h2, hv, hhead, hlast⟩ := hw
+  have hs := startsCI_host_name f.name (f.ows1 ++ f.value ++ f.ows2 ++ [CR, LF] ++ z) hname
+  have hlen : f.name.length = 4 := by
+    simp only [isHostName, Bool.and_eq_true, beq_iff_eq] at hn
+    exact hn.2
+  have hdrop : List.drop 5 (f.render ++ z) = f.ows1 ++ (f.value ++ (f.ows2 ++ CR :: LF :: z)) := by
+    match hnm : f.name, hlen with
+    | [a, b, c, d], _ => simp [Field.render, Field.body, hnm]
+  unfold hostGroup
+  have hs' : startsCI hostLit (f.render ++ z) = true := by
+    simp only [Field.render, Field.body, List.append_assoc, List.cons_append] at hs ⊢
+    rw [hs, hn]
+  rw [hs', hdrop, if_pos rfl, stripL_ows_append _ _ h1]
+  cases hval : f.value with
+  | nil =>
+    have : stripL (f.ows2 ++ CR :: LF :: z) = CR :: LF :: z := by
+      rw [stripL_ows_append _ _ h2]
+      simp [stripL, isOWS, CR]
+    simp only [List.nil_append, this]
+    simp [lineUpToLF, CR, LF, chopCR, stripR]
+  | cons v0 vs =>
+    have hv0 : isOWS v0 = false := hhead v0 (by simp [hval])
+    have hst : stripL (v0 :: vs ++ (f.ows2 ++ CR :: LF :: z)) = v0 :: vs ++ (f.ows2 ++ CR :: LF :: z) := by
+      simp [stripL, hv0]
+    rw [hst]
+    have hline : v0 :: vs ++ (f.ows2 ++ CR :: LF :: z) = ((v0 :: vs) ++ f.ows2 ++ [CR]) ++ LF :: z := by simp
+    have hnolf : LF ∉ (v0 :: vs) ++ f.ows2 ++ [CR] := by
+      intro hm
+      simp only [List.mem_append, List.mem_cons, List.mem_nil_iff, or_false] at hm
+      rcases hm with (hm | hm) | hm
+      · exact (hv LF (by rw [hval]; simpa using hm)).2 rfl
+      · exact (ows_facts _ (h2 _ hm)).2 rfl
+      · exact absurd hm (by decide)
+    rw [hline, lineUpToLF_exact _ _ hnolf]
+    show Option.map stripR (chopCR (v0 :: vs ++ f.ows2 ++ [CR])) = some (v0 :: vs)
+    rw [chopCR_snoc]
+    simp only [Option.map_some]
+    rw [stripR_value (v0 :: vs) f.ows2 h2 (by rw [← hval]; exact hlast)]
+
+/-- the scan standing behind a CRLF in front of well-formed field lines and the closing CRLF reads the first Host field -/
+theorem atLine_fields (fs : List Field) (hw : ∀ f ∈ fs, f.WF) (z : Bytes) :
+    atLine (fs.flatMap Field.render ++ CR :: LF :: z) = .ok (specHost fs) := by
+  induction fs with
+  | nil =>
+    simp [atLine, hostGroup, startsCI, hostLit, asciiLowerB, CR, startsCRLF, specHost]
+  | cons f fs ih =>
+    have hf : f.WF := hw f (by simp)
+    have hrest : ∀ g ∈ fs, g.WF := fun g hg => hw g (List.mem_cons_of_mem _ hg)
+    simp only [List.flatMap_cons, List.append_assoc]
+    cases hn : isHostName f.name with
+    | true =>
+      simp only [atLine, hostGroup_host f hf hn, specHost, hn, if_true]
+    | false =>
+      simp only [atLine, hostGroup_other f hf hn, startsCRLF_field f hf, specHost, hn]
+      rw [scan_lf]
+      have : f.render ++ (List.flatMap Field.render fs ++ CR :: LF :: z)
+          = f.body ++ CR :: LF :: (List.flatMap Field.render fs ++ CR :: LF :: z) := by
+        simp [Field.render]
+      rw [this, scan_skip _ _ (body_no_cr f hf)]
+      simpa using ih hrest
+
+/-! ## ClientHello extraction and the verdict under more bytes (TCP) -/
+
+theorem startsLike_append (dtls : Bool) (p q : Bytes) (h : 3 ≤ p.length) :
+    C13.startsLike dtls (p ++ q) = C13.startsLike dtls p := by
+  match p, h with
+  | a :: b :: c :: r, _ => simp [C13.startsLike]
+
+theorem clientHello_append_tcp {Pat : Type} (E : Env Pat) (port : Option Nat) (p q : Bytes) (r : Option Bytes)
+    (h3 : 3 ≤ p.length) (h : clientHello E true port p = .ok r) : clientHello E true port (p ++ q) = .ok r := by
+  unfold clientHello at h ⊢
+  simp only [if_true] at h ⊢
+  rw [startsLike_append false p q h3]
+  by_cases hs : C13.startsLike false p = true
+  · simp only [hs, if_true] at h ⊢
+    have hne : C13.parse false p ≠ .incomplete := by
+      intro e; rw [e] at h; cases h
+    rw [MitmVerif.Props.C13.prefix_stable false p q hne]
+    exact h
+  · simpa [hs] using h
+
+/-- what the property statement exempts ("the documented minimum needed to recognise TLS") and what it does not
+    (F-C19b: the bytes so far end inside the request line) -/
+def earlyPrefix (p : Bytes) : Bool := decide (p.length < 3) || reqLinePending p
+
+theorem candidates_append_tcp {Pat : Type} (E : Env Pat) (c : Cfg Pat) (p q ds : Bytes) (hs : List Bytes)
+    (htcp : c.tcp = true) (hp : earlyPrefix p = false)
+    (h : candidates E c p ds = .ok hs) : candidates E c (p ++ q) ds = .ok hs := by
+  simp only [earlyPrefix, Bool.or_eq_false_iff, decide_eq_false_iff_not, Nat.not_lt] at hp
+  unfold candidates at h ⊢
+  cases ha : c.address with
+  | none => simpa [ha] using h
+  | some hp' =>
+    obtain ⟨host, port⟩ := hp'
+    simp only [ha] at h ⊢
+    cases hh : hostHeader c.tcp p ds with
+    | needMore => simp [hh] at h
+    | ok v =>
+      rw [hostHeader_append c.tcp p q ds v hp.2 hh]
+      simp only [hh] at h
+      rw [htcp] at h ⊢
+      cases hc : clientHello E true (some port) p with
+      | needMore => simp [hc] at h
+      | ok s =>
+        rw [clientHello_append_tcp E (some port) p q s hp.1 hc]
+        simpa [hc] using h
+
+/-- **the verdict is final**: once `_ignore_connection` answers on a prefix that is neither shorter than three
+    bytes nor ends inside the request line, every extension of that prefix gets the same answer -/
+theorem ignoreConnection_append_tcp {Pat : Type} (E : Env Pat) (c : Cfg Pat) (p q ds : Bytes) (b : Bool)
+    (htcp : c.tcp = true) (hp : earlyPrefix p = false)
+    (h : ignoreConnection E c p ds = .ok b) : ignoreConnection E c (p ++ q) ds = .ok b := by
+  unfold ignoreConnection at h ⊢
+  by_cases h1 : (c.ignorePats.isEmpty && c.allowPats.isEmpty) = true
+  · simpa [h1] using h
+  · simp only [h1] at h ⊢
+    by_cases h2 : exempt c = true
+    · simpa [h2] using h
+    · simp only [h2] at h ⊢
+      cases hc : candidates E c p ds with
+      | needMore => simp [hc] at h
+      | ok hs =>
+        rw [candidates_append_tcp E c p q ds hs htcp hp hc]
+        simpa [hc] using h
+
+/-! ## segment-by-segment asking (NextLayer._ask after every DataReceived) -/
+
+/-- ask after every segment with everything received so far; the first answer other than needMore stands -/
+def askSegs {β : Type} (f : Bytes → Res β) : Bytes → List Bytes → Res β
+  | _, [] => .needMore
+  | acc, s :: ss =>
+    match f (acc ++ s) with
+    | .needMore => askSegs f (acc ++ s) ss
+    | r => r
+
+/-- the accumulated bytes at which the first answer is given -/
+def decidingPrefix {β : Type} (f : Bytes → Res β) : Bytes → List Bytes → Option Bytes
+  | _, [] => none
+  | acc, s :: ss =>
+    match f (acc ++ s) with
+    | .needMore => decidingPrefix f (acc ++ s) ss
+    | _ => some (acc ++ s)
+
+theorem askSegs_eq {β : Type} (f : Bytes → Res β) (acc : Bytes) (segs : List Bytes) (p : Bytes)
+    (h : decidingPrefix f acc segs = some p) :
+    askSegs f acc segs = f p ∧ ∃ q, acc ++ segs.flatten = p ++ q := by
+  induction segs generalizing acc with
+  | nil => simp [decidingPrefix] at h
+  | cons s ss ih =>
+    simp only [decidingPrefix, askSegs] at h ⊢
+    cases hf : f (acc ++ s) with
+    | needMore =>
+      simp only [hf] at h
+      obtain ⟨h1, q, h2⟩ := ih (acc ++ s) h
+      exact ⟨h1, q, by simpa [List.append_assoc] using h2⟩
+    | ok b =>
+      simp only [hf] at h
+      cases h
+      exact ⟨hf.symm, ss.flatten, by simp [List.append_assoc]⟩
+
+/-! ## the connection: buffering, replay, relay -/
+
+theorem recvFrom_append (b : Bool) (h1 h2 : List Ev) : recvFrom b (h1 ++ h2) = recvFrom b h1 ++ recvFrom b h2 := by
+  induction h1 with
+  | nil => rfl
+  | cons e es ih =>
+    cases e <;> cases b <;> simp [recvFrom, ih]
+
+theorem sentTo_append (b : Bool) (o1 o2 : List Out) : sentTo b (o1 ++ o2) = sentTo b o1 ++ sentTo b o2 := by
+  induction o1 with
+  | nil => rfl
+  | cons o os ih =>
+    cases o with
+    | send t d => by_cases h : t = b <;> simp [sentTo, h, ih]
+    | _ => simp [sentTo, ih]
+
+theorem hooks_append (o1 o2 : List Out) : hooks (o1 ++ o2) = hooks o1 ++ hooks o2 := by
+  induction o1 with
+  | nil => rfl
+  | cons o os ih => cases o <;> simp [hooks, ih]
+
+/-- fields that the relay never touches -/
+structure SameCfg (s t : Sess) : Prop where
+  queue : t.queue = s.queue
+  stack : t.stack = s.stack
+  flow : t.flow = s.flow
+  tcp : t.tcp = s.tcp
+
+theorem relayEv_spec (s : Sess) (e : Ev) (hp : s.phase = .relay) :
+    ((relayEv s e).phase = .relay ∨ (relayEv s e).phase = .done) ∧ SameCfg s (relayEv s e) ∧
+    (∀ b, sentTo b (relayEv s e).out = sentTo b s.out ++ recvFrom b [e]) ∧
+    (s.flow = false → hooks (relayEv s e).out = hooks s.out) := by
+  cases e with
+  | dataC d =>
+    refine ⟨Or.inl (by simp [relayEv, Sess.emit, hp]), ⟨rfl, rfl, rfl, rfl⟩, ?_, ?_⟩
+    · intro b; cases b <;> cases hf : s.flow <;> simp [relayEv, Sess.emit, sentTo_append, sentTo, recvFrom, hf]
+    · intro hf; simp [relayEv, Sess.emit, hooks_append, hooks, hf]
+  | dataS d =>
+    refine ⟨Or.inl (by simp [relayEv, Sess.emit, hp]), ⟨rfl, rfl, rfl, rfl⟩, ?_, ?_⟩
+    · intro b; cases b <;> cases hf : s.flow <;> simp [relayEv, Sess.emit, sentTo_append, sentTo, recvFrom, hf]
+    · intro hf; simp [relayEv, Sess.emit, hooks_append, hooks, hf]
+  | closeC =>
+    simp only [relayEv]
+    split
+    · split
+      · refine ⟨Or.inr rfl, ⟨rfl, rfl, rfl, rfl⟩, ?_, ?_⟩
+        · intro b
+          simp only [Sess.emit, sentTo_append, recvFrom, List.append_nil]
+          cases s.server.closed <;> cases s.client.closed <;> cases s.flow <;> simp [sentTo]
+        · intro hf
+          simp only [Sess.emit, hooks_append, hf]
+          cases s.server.closed <;> cases s.client.closed <;> simp [hooks]
+      · refine ⟨Or.inl hp, ⟨rfl, rfl, rfl, rfl⟩, ?_, ?_⟩
+        · intro b
+          simp only [Sess.emit, sentTo_append, recvFrom, List.append_nil]
+          cases s.server.canWrite <;> simp [sentTo]
+        · intro _
+          simp only [Sess.emit, hooks_append]
+          cases s.server.canWrite <;> simp [hooks]
+    · refine ⟨Or.inr rfl, ⟨rfl, rfl, rfl, rfl⟩, ?_, ?_⟩
+      · intro b
+        simp only [Sess.emit, sentTo_append, recvFrom, List.append_nil]
+        cases s.flow <;> simp [sentTo]
+      · intro hf
+        simp [Sess.emit, hooks_append, hf, hooks]
+  | closeS =>
+    simp only [relayEv]
+    split
+    · split
+      · refine ⟨Or.inr rfl, ⟨rfl, rfl, rfl, rfl⟩, ?_, ?_⟩
+        · intro b
+          simp only [Sess.emit, sentTo_append, recvFrom, List.append_nil]
+          cases s.server.closed <;> cases s.client.closed <;> cases s.flow <;> simp [sentTo]
+        · intro hf
+          simp only [Sess.emit, hooks_append, hf]
+          cases s.server.closed <;> cases s.client.closed <;> simp [hooks]
+      · refine ⟨Or.inl hp, ⟨rfl, rfl, rfl, rfl⟩, ?_, ?_⟩
+        · intro b
+          simp only [Sess.emit, sentTo_append, recvFrom, List.append_nil]
+          cases s.client.canWrite <;> simp [sentTo]
+        · intro _
+          simp only [Sess.emit, hooks_append]
+          cases s.client.canWrite <;> simp [hooks]
+    · refine ⟨Or.inr rfl, ⟨rfl, rfl, rfl, rfl⟩, ?_, ?_⟩
+      · intro b
+        simp only [Sess.emit, sentTo_append, recvFrom, List.append_nil]
+        cases s.flow <;> simp [sentTo]
+      · intro hf
+        simp [Sess.emit, hooks_append, hf, hooks]
+  | connOk => exact ⟨Or.inl hp, ⟨rfl, rfl, rfl, rfl⟩, fun b => by simp [relayEv, recvFrom], fun _ => rfl⟩
+  | connErr => exact ⟨Or.inl hp, ⟨rfl, rfl, rfl, rfl⟩, fun b => by simp [relayEv, recvFrom], fun _ => rfl⟩
+
+theorem relayAll_spec (s : Sess) (evs : List Ev) (hp : s.phase = .relay) :
+    ((relayAll s evs).phase = .relay ∨ (relayAll s evs).phase = .done) ∧ SameCfg s (relayAll s evs) ∧
+    ((relayAll s evs).phase = .relay → ∀ b, sentTo b (relayAll s evs).out = sentTo b s.out ++ recvFrom b evs) ∧
+    (s.flow = false → hooks (relayAll s evs).out = hooks s.out) := by
+  induction evs generalizing s with
+  | nil => exact ⟨Or.inl hp, ⟨rfl, rfl, rfl, rfl⟩, fun _ b => by simp [relayAll, recvFrom], fun _ => rfl⟩
+  | cons e es ih =>
+    simp only [relayAll, hp, if_true]
+    obtain ⟨hph, hsame, hsent, hhook⟩ := relayEv_spec s e hp
+    rcases hph with hph | hph
+    · obtain ⟨h1, h2, h3, h4⟩ := ih (relayEv s e) hph
+      refine ⟨h1, ⟨h2.queue.trans hsame.queue, h2.stack.trans hsame.stack, h2.flow.trans hsame.flow,
+        h2.tcp.trans hsame.tcp⟩, ?_, ?_⟩
+      · intro hr b
+        rw [h3 hr b, hsent b]
+        have : recvFrom b (e :: es) = recvFrom b [e] ++ recvFrom b es := recvFrom_append b [e] es
+        rw [this, List.append_assoc]
+      · intro hf
+        rw [h4 (by rw [hsame.flow]; exact hf), hhook hf]
+    · have hstop : relayAll (relayEv s e) es = relayEv s e := by
+        cases es with
+        | nil => rfl
+        | cons x xs => simp [relayAll, hph]
+      rw [hstop]
+      refine ⟨Or.inr hph, hsame, ?_, hhook⟩
+      intro hr; rw [hph] at hr; cases hr
+
+/-- the relay layer is the whole stack; `flow` says whether it was created with `ignore = False` -/
+def relayStack (s : Sess) : Prop :=
+  ∃ ig, (s.stack = [LK.tcp ig] ∨ s.stack = [LK.udp ig]) ∧ s.flow = !ig
+
+/-- the invariant of the connection model along any event history `hist` -/
+def Inv (s : Sess) (hist : List Ev) : Prop :=
+  match s.phase with
+  | .undecided => s.out = [] ∧ s.stack = [] ∧ (∀ b, recvFrom b s.queue = recvFrom b hist) ∧
+      s.dc = recvFrom true hist ∧ s.ds = recvFrom false hist
+  | .connecting => relayStack s ∧ (s.flow = false → hooks s.out = []) ∧
+      ∀ b, sentTo b s.out = [] ∧ recvFrom b s.queue = recvFrom b hist
+  | .relay => relayStack s ∧ (s.flow = false → hooks s.out = []) ∧ ∀ b, sentTo b s.out = recvFrom b hist
+  | .done => relayStack s ∧ (s.flow = false → hooks s.out = [])
+  | .failed => relayStack s ∧ (s.flow = false → hooks s.out = []) ∧ ∀ b, sentTo b s.out = []
+  | .intercepted => ∀ ig, s.stack ≠ [LK.tcp ig] ∧ s.stack ≠ [LK.udp ig]
+  | .aborted => s.stack = [] ∧ ∀ b, sentTo b s.out = []
+
+theorem noteEv_same (s : Sess) (e : Ev) :
+    (noteEv s e).phase = s.phase ∧ (noteEv s e).out = s.out ∧ (noteEv s e).queue = s.queue ∧
+    (noteEv s e).dc = s.dc ∧ (noteEv s e).ds = s.ds ∧ (noteEv s e).stack = s.stack ∧ (noteEv s e).flow = s.flow ∧
+    (noteEv s e).connected = s.connected := by
+  cases e <;> simp [noteEv]
+
+theorem relayAll_inv (s0 : Sess) (q hist : List Ev) (hp : s0.phase = .relay) (hst : relayStack s0)
+    (hhk : s0.flow = false → hooks s0.out = []) (hsent : ∀ b, sentTo b s0.out = [])
+    (hq : ∀ b, recvFrom b q = recvFrom b hist) : Inv (relayAll s0 q) hist := by
+  obtain ⟨h1, h2, h3, h4⟩ := relayAll_spec s0 q hp
+  have hrs : relayStack (relayAll s0 q) := by
+    obtain ⟨ig, hs, hf⟩ := hst
+    exact ⟨ig, by rw [h2.stack]; exact hs, by rw [h2.flow]; exact hf⟩
+  have hhk' : (relayAll s0 q).flow = false → hooks (relayAll s0 q).out = [] := by
+    intro hf
+    rw [h2.flow] at hf
+    rw [h4 hf]
+    exact hhk hf
+  rcases h1 with h1 | h1
+  · unfold Inv; rw [h1]
+    refine ⟨hrs, hhk', ?_⟩
+    intro b
+    rw [h3 h1 b, hsent b, ← hq b]
+    rfl
+  · unfold Inv; rw [h1]
+    exact ⟨hrs, hhk'⟩
+
+theorem startRelay_inv (s : Sess) (hist : List Ev) (hout : s.out = []) (hst : relayStack s)
+    (hq : ∀ b, recvFrom b s.queue = recvFrom b hist) : Inv (startRelay s s.queue) hist := by
+  unfold startRelay
+  simp only [Sess.emit, hout, List.nil_append]
+  split
+  · apply relayAll_inv _ _ _ rfl
+    · obtain ⟨ig, h1, h2⟩ := hst
+      exact ⟨ig, h1, h2⟩
+    · intro hf
+      simp only at hf
+      simp [hf, hooks]
+    · intro b
+      show sentTo b (if s.flow = true then [Out.hook 0] else []) = []
+      cases s.flow <;> simp [sentTo]
+    · exact hq
+  · unfold Inv
+    refine ⟨?_, ?_, ?_⟩
+    · obtain ⟨ig, h1, h2⟩ := hst
+      exact ⟨ig, h1, h2⟩
+    · intro hf
+      simp only at hf
+      simp [hf, hooks]
+    · intro b
+      refine ⟨?_, hq b⟩
+      show sentTo b ((if s.flow = true then [Out.hook 0] else []) ++ [Out.openServer]) = []
+      cases s.flow <;> simp [sentTo]
+
+theorem askNL_inv {Pat : Type} (E : Env Pat) (c : NCfg Pat) (s : Sess) (hist : List Ev)
+    (hp : s.phase = .undecided) (hI : Inv s hist) : Inv (askNL E c s) hist := by
+  unfold Inv at hI
+  rw [hp] at hI
+  obtain ⟨hout, hstk, hq, hdc, hds⟩ := hI
+  unfold askNL
+  cases hn : nextLayer E c s.dc s.ds with
+  | needMore =>
+    unfold Inv; simp only [hp]
+    exact ⟨hout, hstk, hq, hdc, hds⟩
+  | ok st =>
+    simp only
+    split
+    · rename_i ig
+      have := startRelay_inv { s with stack := [LK.tcp ig], flow := !ig } hist hout ⟨ig, Or.inl rfl, rfl⟩ hq
+      exact this
+    · rename_i ig
+      have := startRelay_inv { s with stack := [LK.udp ig], flow := !ig } hist hout ⟨ig, Or.inr rfl, rfl⟩ hq
+      exact this
+    · rename_i h1 h2
+      unfold Inv
+      simp only
+      intro ig
+      exact ⟨fun e => h1 ig e, fun e => h2 ig e⟩
+
+theorem step_inv {Pat : Type} (E : Env Pat) (c : NCfg Pat) (s : Sess) (hist : List Ev) (e : Ev)
+    (hI : Inv s hist) : Inv (step E c s e) (hist ++ [e]) := by
+  obtain ⟨nph, nout, nq, ndc, nds, nstk, nflow, nconn⟩ := noteEv_same s e
+  unfold step
+  simp only [nph]
+  cases hp : s.phase with
+  | undecided =>
+    unfold Inv at hI; rw [hp] at hI
+    obtain ⟨hout, hstk, hq, hdc, hds⟩ := hI
+    cases e with
+    | dataC d =>
+      apply askNL_inv E c _ _ (by simp [nph, hp])
+      unfold Inv; simp only [nph, hp, nout, nstk, nq, ndc, nds]
+      refine ⟨hout, hstk, ?_, ?_, ?_⟩
+      · intro b; rw [recvFrom_append, recvFrom_append, hq b]
+      · rw [recvFrom_append, hdc]; simp [recvFrom]
+      · rw [recvFrom_append, hds]; simp [recvFrom]
+    | dataS d =>
+      apply askNL_inv E c _ _ (by simp [nph, hp])
+      unfold Inv; simp only [nph, hp, nout, nstk, nq, ndc, nds]
+      refine ⟨hout, hstk, ?_, ?_, ?_⟩
+      · intro b; rw [recvFrom_append, recvFrom_append, hq b]
+      · rw [recvFrom_append, hdc]; simp [recvFrom]
+      · rw [recvFrom_append, hds]; simp [recvFrom]
+    | closeC =>
+      unfold Inv; simp only [Sess.emit, nstk, nout, hout]
+      exact ⟨hstk, fun b => by simp [sentTo]⟩
+    | closeS =>
+      unfold Inv; simp only [nph, hp, nout, nstk, nq, ndc, nds]
+      refine ⟨hout, hstk, ?_, ?_, ?_⟩
+      · intro b; rw [recvFrom_append, recvFrom_append, hq b]
+      · rw [recvFrom_append, hdc]; simp [recvFrom]
+      · rw [recvFrom_append, hds]; simp [recvFrom]
+    | connOk =>
+      unfold Inv; simp only [nph, hp, nout, nstk, nq, ndc, nds]
+      refine ⟨hout, hstk, ?_, ?_, ?_⟩
+      · intro b; rw [recvFrom_append, hq b]; simp [recvFrom]
+      · rw [recvFrom_append, hdc]; simp [recvFrom]
+      · rw [recvFrom_append, hds]; simp [recvFrom]
+    | connErr =>
+      unfold Inv; simp only [nph, hp, nout, nstk, nq, ndc, nds]
+      refine ⟨hout, hstk, ?_, ?_, ?_⟩
+      · intro b; rw [recvFrom_append, hq b]; simp [recvFrom]
+      · rw [recvFrom_append, hdc]; simp [recvFrom]
+      · rw [recvFrom_append, hds]; simp [recvFrom]
+  | connecting =>
+    unfold Inv at hI; rw [hp] at hI
+    obtain ⟨hst, hhk, hq⟩ := hI
+    have hst' : relayStack (noteEv s e) := by
+      obtain ⟨ig, h1, h2⟩ := hst
+      exact ⟨ig, by rw [nstk]; exact h1, by rw [nflow]; exact h2⟩
+    cases e with
+    | connOk =>
+      simp only
+      apply relayAll_inv _ _ _ rfl
+      · obtain ⟨ig, h1, h2⟩ := hst'
+        exact ⟨ig, h1, h2⟩
+      · intro hf
+        simp only [nout]
+        exact hhk (by simpa [nflow] using hf)
+      · intro b
+        simp only [nout]
+        exact (hq b).1
+      · intro b
+        rw [nq, (hq b).2, recvFrom_append]
+        simp [recvFrom]
+    | connErr =>
+      unfold Inv
+      simp only [Sess.emit, nout, nstk, nflow]
+      refine ⟨?_, ?_, ?_⟩
+      · obtain ⟨ig, h1, h2⟩ := hst
+        exact ⟨ig, h1, h2⟩
+      · intro hf
+        rw [hooks_append, hhk hf]
+        simp [hf, hooks]
+      · intro b
+        rw [sentTo_append, (hq b).1]
+        cases s.flow <;> simp [sentTo]
+    | dataC d =>
+      unfold Inv; simp only [nph, hp, nout, nq]
+      refine ⟨hst', by simpa [nflow] using hhk, ?_⟩
+      intro b
+      refine ⟨(hq b).1, ?_⟩
+      rw [recvFrom_append, recvFrom_append, (hq b).2]
+    | dataS d =>
+      unfold Inv; simp only [nph, hp, nout, nq]
+      refine ⟨hst', by simpa [nflow] using hhk, ?_⟩
+      intro b
+      refine ⟨(hq b).1, ?_⟩
+      rw [recvFrom_append, recvFrom_append, (hq b).2]
+    | closeC =>
+      unfold Inv; simp only [nph, hp, nout, nq]
+      refine ⟨hst', by simpa [nflow] using hhk, ?_⟩
+      intro b
+      refine ⟨(hq b).1, ?_⟩
+      rw [recvFrom_append, recvFrom_append, (hq b).2]
+    | closeS =>
+      unfold Inv; simp only [nph, hp, nout, nq]
+      refine ⟨hst', by simpa [nflow] using hhk, ?_⟩
+      intro b
+      refine ⟨(hq b).1, ?_⟩
+      rw [recvFrom_append, recvFrom_append, (hq b).2]
+  | relay =>
+    unfold Inv at hI; rw [hp] at hI
+    obtain ⟨hst, hhk, hs⟩ := hI
+    simp only
+    obtain ⟨h1, h2, h3, h4⟩ := relayEv_spec (noteEv s e) e (by rw [nph, hp])
+    have hrs : relayStack (relayEv (noteEv s e) e) := by
+      obtain ⟨ig, hs', hf⟩ := hst
+      exact ⟨ig, by rw [h2.stack, nstk]; exact hs', by rw [h2.flow, nflow]; exact hf⟩
+    have hhk' : (relayEv (noteEv s e) e).flow = false → hooks (relayEv (noteEv s e) e).out = [] := by
+      intro hf
+      rw [h2.flow] at hf
+      rw [h4 hf, nout]
+      exact hhk (by rw [← nflow]; exact hf)
+    rcases h1 with h1 | h1
+    · unfold Inv; rw [h1]
+      refine ⟨hrs, hhk', ?_⟩
+      intro b
+      rw [h3 b, nout, hs b, recvFrom_append]
+    · unfold Inv; rw [h1]
+      exact ⟨hrs, hhk'⟩
+  | done =>
+    unfold Inv at hI ⊢; rw [hp] at hI
+    simp only [nph, hp, nstk, nflow, nout]
+    obtain ⟨⟨ig, h1, h2⟩, h3⟩ := hI
+    exact ⟨⟨ig, by rw [nstk]; exact h1, by rw [nflow]; exact h2⟩, h3⟩
+  | failed =>
+    unfold Inv at hI ⊢; rw [hp] at hI
+    simp only [nph, hp, nstk, nflow, nout]
+    obtain ⟨⟨ig, h1, h2⟩, h3, h4⟩ := hI
+    exact ⟨⟨ig, by rw [nstk]; exact h1, by rw [nflow]; exact h2⟩, h3, h4⟩
+  | intercepted =>
+    unfold Inv at hI ⊢; rw [hp] at hI
+    simp only [nph, hp, nstk]
+    exact hI
+  | aborted =>
+    unfold Inv at hI ⊢; rw [hp] at hI
+    simp only [nph, hp, nstk, nout]
+    exact hI
+
+theorem run_inv {Pat : Type} (E : Env Pat) (c : NCfg Pat) (s : Sess) (hist evs : List Ev)
+    (hI : Inv s hist) : Inv (run E c s evs) (hist ++ evs) := by
+  induction evs generalizing s hist with
+  | nil => simpa [run] using hI
+  | cons e es ih =>
+    have := ih (step E c s e) (hist ++ [e]) (step_inv E c s hist e hI)
+    simpa [run, List.append_assoc] using this
+
+theorem init_inv (tcp connected : Bool) : Inv (Sess.init tcp connected) [] := by
+  unfold Inv Sess.init
+  simp [recvFrom]
 
 end MitmVerif.C19
